@@ -75,10 +75,14 @@ class BaseTranslateFilter:
                 for k in self.re_vars.findall(message_text)
             }
 
-        # Missing variables get replaced by the current `Undefined` type and we're
-        # converting all values to a string, so a KeyError or a ValueError should
-        # be impossible.
-        return message_text % _vars
+        # Replace placeholders only. Percent signs that are not part of a
+        # `%(name)s` placeholder are message text. Printf-style formatting of the
+        # whole message would choke on them or silently rewrite them.
+        formatted = self.re_vars.sub(lambda match: _vars[match.group(1)], message_text)
+
+        if isinstance(message_text, Markup):
+            return Markup(formatted)
+        return formatted
 
     def _resolve_translations(self, context: RenderContext) -> Translations:
         return cast(
